@@ -7,7 +7,7 @@ from ..core import rule
 from ..index import AnalysisError, dotted, src, walk_no_nested, names_in
 from ..cfg import CFG, UNK
 from ..domains import check_pred, eval_pred, cmp_atoms, NotComparisonOnly
-from ..util import node_calls, own_expr, truthiness_uses, explore, outcomes_by_case, enclosing_loops, loop_targets, mk_atoms
+from ..util import node_calls, own_expr, truthiness_uses, explore, outcomes_by_case, enclosing_loops, loop_targets, mk_atoms, stmt_of, ancestors, reach_conds
 from .slots import COUNTTABLE, BASEDEMUX
 
 RS = 'read_should_be_counted'
@@ -342,22 +342,58 @@ def r5(ctx):
     ctx.need('C11-R5', len(incs), 4, "'increment' entries")
     mod = ctx.ix.module(COUNTTABLE)
     okall = True
+    TAGVALUE = {'float(feature_dict.get(args.byValue, 0))', '0'}
     for v in incs:
         t = src(v)
         if t == 'countToAdd':
             continue
-        if t == 'add':
-            # must be under a byValue guard
-            p = mod.parent.get(v)
-            guarded = False
-            while p is not None and p is not g:
-                if isinstance(p, ast.If) and 'args.byValue' in src(p.test):
-                    guarded = True
-                p = mod.parent.get(p)
-            if guarded:
+        if isinstance(v, ast.Name):
+            # path-based: on every path to the record the local holds the computed weight, or - only where a by-value tag is requested -
+            # the tag's value.  Decided in the innermost enclosing block that assigns the local on every path to the record.
+            use = stmt_of(mod, v)
+            enclosing = reach_conds(g.body, use) or []
+            facts = {}
+
+            def learn(t_, pol):
+                facts[src(t_)] = pol
+                if isinstance(t_, ast.BoolOp) and ((isinstance(t_.op, ast.And) and pol) or (isinstance(t_.op, ast.Or) and not pol)):
+                    for x_ in t_.values:
+                        learn(x_, pol)
+                elif isinstance(t_, ast.UnaryOp) and isinstance(t_.op, ast.Not):
+                    learn(t_.operand, not pol)
+            for t_, pol in enclosing:
+                learn(t_, pol)
+            fixed = mk_atoms(facts)(ast.parse('args.byValue is not None', mode='eval').body)
+            blocks = []
+            for a in ancestors(mod, use):
+                for fld in ('body', 'orelse', 'finalbody'):
+                    b_ = getattr(a, fld, None)
+                    if isinstance(b_, list) and any(x is use or any(y is use for y in ast.walk(x)) for x in b_):
+                        blocks.append(b_)
+                if a is g:
+                    break
+            verdict = None
+            for b_ in blocks:
+                vals = {}
+                complete = True
+                try:
+                    for byv in ((True, False) if fixed is UNK else (bool(fixed),)):
+                        rs = [r for r in explore(b_, mk_atoms(dict(facts, **{'args.byValue is not None': byv})), names=(v.id,), upto=use, max_paths=3000) if r['kind'] == 'upto']
+                        if not rs or any(v.id not in r['env'] for r in rs):
+                            complete = False
+                            break
+                        vals[byv] = {src(r['env'][v.id]) for r in rs}
+                except AnalysisError:
+                    complete = False
+                if complete:
+                    verdict = all(vs <= ({'countToAdd'} | (TAGVALUE if byv else set())) for byv, vs in vals.items())
+                    if not verdict:
+                        t = f'{t} = {sorted(set().union(*vals.values()))} (by-value requested: {sorted(vals)})'
+                    break
+            if verdict:
                 continue
         okall = False
-        ctx.emit('C11-R5', False, COUNTTABLE, v, f"'increment' is `{t}` instead of the computed weight", key=f'increment:{t}')
+        ctx.emit('C11-R5', False, COUNTTABLE, v, f"'increment' is `{t}` instead of the computed weight", key=f'increment:{src(v)}')
     if okall:
         ctx.emit('C11-R5', True, COUNTTABLE, g, f"all {len(incs)} 'increment' entries are the computed weight (or the tag value under byValue)", key='increment-provenance')
     augs = [a for a in walk_no_nested(g) if isinstance(a, ast.AugAssign) and src(a.target).startswith('countTable[')]
